@@ -285,7 +285,8 @@ def eval (line : String) : Option String := do
   | "convfacts" :: _ =>
     let f := fun (l : List (String × String)) => ",".intercalate (l.map fun (a, b) => a ++ "<-" ++ b)
     pure (s!"tolinked={f toLinkedcaFields} tocert={f toCertificatesFields} " ++
-      s!"whto={f webhookToLinkedcaFields} whfrom={f webhookToCertificatesFields}")
+      s!"whto={f webhookToLinkedcaFields} whfrom={f webhookToCertificatesFields} " ++
+      s!"optsto={optionsToLinkedcaShape} optsfrom={optionsToCertificatesShape}")
   | "init" :: rest =>
     let kv := kvOf rest
     let c : Config := { secret := ← str? (← lookup kv "secret"), hooks := ← hooks? (← lookup kv "hooks") }
